@@ -152,12 +152,24 @@ func (c16) Gen(rs uint64, tier string, race bool) interface{} {
 	rate := []float64{0, 0.02, 0.05, 0.15}[r.Intn(4)]
 	lowerFlanks := r.Chance(0.12)
 	verb := r.Intn(ns)
+	softStart := -1
+	if lowerFlanks && r.Chance(0.5) {
+		softStart = r.Intn(ns)
+	}
 	for i := 0; i < ns; i++ {
 		left := randNt(r, r.Intn(16))
 		right := randNt(r, r.Intn(16))
 		if lowerFlanks {
 			// soft-masked flanks: the ORF itself stays as it is
 			left, right = strings.ToLower(left), strings.ToLower(right)
+			if i == softStart {
+				// ... and in one sequence a start codon in the soft-masked flank, in frame with the ORF: the longest
+				// open reading frame of the set begins in lower case
+				left += "atg"
+				for k := r.Intn(4); k > 0; k-- {
+					left += strings.ToLower(c16Codons[r.Intn(len(c16Codons))])
+				}
+			}
 		}
 		b := []byte(c.Orf)
 		vstart := len(left)
@@ -404,7 +416,14 @@ func (c16) Run(ctx *Ctx, ci interface{}) (o Outcome) {
 			// best hit, the call returns one result per sequence (or an error) on a closed stream
 			d := *c
 			d.GiveRef, d.ExtraRefs, d.RefAt, d.BadAt, d.Choices = true, nil, 0, -1, nil
-			d.Orf = []string{"ATG", "ATGTAA", "ATGGCTTAA"}[Mix(c.Seed, "which")%3]
+			switch w := Mix(c.Seed, "which") % 5; w {
+			case 3, 4:
+				// a soft-masked (lower-case) reference compared nucleotide by nucleotide with explicit scores: no
+				// residue of it equals one of an upper-case sequence, no alignment has a positive score
+				d.Orf, d.Translate, d.Scores = strings.ToLower(c.Orf), false, true
+			default:
+				d.Orf = []string{"ATG", "ATGTAA", "ATGGCTTAA"}[w]
+			}
 			pr := d.runPhase(ctx, 1+int(Mix(c.Seed, "cpus")%3), SchedCfg{Seed: 1, Policy: PolFIFO, MaxSteps: budget})
 			o.Add("smallest_reference_runs", 1)
 			for _, p := range pr.sr.Panics {
